@@ -126,10 +126,10 @@ def run(ctx):
   ctx.model('MC_SCML', 'MC_SCML.cfg', workers=4)
   rng = np.random.default_rng(ctx.seed + 15)
   rs = []
-  for i in range(8 if ctx.quick else 192):
+  for i in range(8 if ctx.quick else 384):
     rs.append(dict(supervised=bool(i % 2), n=3 if ctx.quick else 8, seed=int(rng.integers(1 << 30))))
   # directed: local-LDA bases whose last region contributes only part of its directions (3 classes, odd n_basis)
-  for i in range(2 if ctx.quick else 32):
+  for i in range(2 if ctx.quick else 64):
     rs.append(dict(supervised=True, lda_tail=True, n=3 if ctx.quick else 8, seed=int(rng.integers(1 << 30))))
   ctx.rule = ('random triplet sets (n_triplets >= n_features) x basis in {triplet_diffs, lda (supervised), array} x n_basis x '
               'beta x gamma x batch_size 1..4 x max_iter in {12,24,40} x output_iter in {1,4,6,12} x integer seeds; SCML and '
